@@ -501,6 +501,9 @@ func main() {
 		fmt.Fprintln(os.Stderr, "usage: c11 <quick|thorough>")
 		os.Exit(3)
 	}
+	if os.Args[1] == "racepass" && len(os.Args) >= 4 {
+		os.Exit(racePassMain(os.Args[2], os.Args[3]))
+	}
 	tier := os.Args[1]
 	if r := os.Getenv("VERIF_ROOT"); r != "" {
 		ev.Root = r
@@ -521,12 +524,57 @@ func main() {
 		deadline = time.Now().Add(40 * time.Minute)
 	}
 	st := &stats{}
-	type job struct {
-		newImpl func() drv.Driver
-		drvName string
-		sc      scenario
-		bound   int
+	jobs := buildJobs(thorough)
+	// the scheduler is a process-wide singleton: scenarios run one after the other
+	var mu sync.Mutex
+	_ = mu
+	only := os.Getenv("C11_ONLY")
+	shard, nshards := 0, 1
+	fmt.Sscanf(os.Getenv("C11_SHARD"), "%d/%d", &shard, &nshards)
+	if nshards < 1 {
+		nshards = 1
 	}
+	if os.Getenv("C11_SHARD") == "" && only == "" {
+		os.Exit(runSharded(run, tier, len(jobs)))
+	}
+	for i, j := range jobs {
+		if i%nshards != shard {
+			continue
+		}
+		if only != "" && !strings.Contains(j.sc.name+" init="+j.sc.init+" "+j.drvName, only) {
+			continue
+		}
+		if f := os.Getenv("C11_PROGRESS"); f != "" {
+			if pf, err := os.OpenFile(f, os.O_APPEND|os.O_WRONLY|os.O_CREATE, 0o644); err == nil {
+				pf.WriteString(".")
+				pf.Close()
+			}
+		}
+		ev.SetInFlight(0, fmt.Sprintf("C11 scenario %d/%d %s init=%s driver=%s bound=%d", i+1, len(jobs), j.sc.name, j.sc.init, j.drvName, j.bound))
+		explore(run, st, j.newImpl, j.drvName, j.sc, j.bound, deadline)
+		if atomic.LoadInt64(&st.Capped) != 0 {
+			break
+		}
+	}
+	cov := coverage(st, len(jobs))
+	if out := os.Getenv("C11_RESULT"); out != "" {
+		b, _ := json.Marshal(shardResult{Stats: *st, Reports: shardReports})
+		os.WriteFile(out, b, 0o644)
+		os.Exit(0)
+	}
+	os.Exit(run.Finish(cov))
+}
+
+type job struct {
+	newImpl func() drv.Driver
+	drvName string
+	sc      scenario
+	bound   int
+}
+
+// buildJobs lists the scenarios of a tier (shared by the controlled-scheduler exploration and
+// by the free-running race-detector pass, which runs the same thread bodies).
+func buildJobs(thorough bool) []job {
 	var jobs []job
 	drivers := []struct {
 		name string
@@ -614,44 +662,7 @@ func main() {
 			}
 		}
 	}
-	// the scheduler is a process-wide singleton: scenarios run one after the other
-	var mu sync.Mutex
-	_ = mu
-	only := os.Getenv("C11_ONLY")
-	shard, nshards := 0, 1
-	fmt.Sscanf(os.Getenv("C11_SHARD"), "%d/%d", &shard, &nshards)
-	if nshards < 1 {
-		nshards = 1
-	}
-	if os.Getenv("C11_SHARD") == "" && only == "" {
-		os.Exit(runSharded(run, tier, len(jobs)))
-	}
-	for i, j := range jobs {
-		if i%nshards != shard {
-			continue
-		}
-		if only != "" && !strings.Contains(j.sc.name+" init="+j.sc.init+" "+j.drvName, only) {
-			continue
-		}
-		if f := os.Getenv("C11_PROGRESS"); f != "" {
-			if pf, err := os.OpenFile(f, os.O_APPEND|os.O_WRONLY|os.O_CREATE, 0o644); err == nil {
-				pf.WriteString(".")
-				pf.Close()
-			}
-		}
-		ev.SetInFlight(0, fmt.Sprintf("C11 scenario %d/%d %s init=%s driver=%s bound=%d", i+1, len(jobs), j.sc.name, j.sc.init, j.drvName, j.bound))
-		explore(run, st, j.newImpl, j.drvName, j.sc, j.bound, deadline)
-		if atomic.LoadInt64(&st.Capped) != 0 {
-			break
-		}
-	}
-	cov := coverage(st, len(jobs))
-	if out := os.Getenv("C11_RESULT"); out != "" {
-		b, _ := json.Marshal(shardResult{Stats: *st, Reports: shardReports})
-		os.WriteFile(out, b, 0o644)
-		os.Exit(0)
-	}
-	os.Exit(run.Finish(cov))
+	return jobs
 }
 
 func coverage(st *stats, njobs int) map[string]interface{} {
@@ -782,5 +793,27 @@ func runSharded(run *ev.Run, tier string, njobs int) int {
 	}
 	cov := coverage(&total, njobs)
 	cov["shards"] = n
+	mergeRacePass(run, cov)
 	return run.Finish(cov)
+}
+
+// mergeRacePass adds what the free-running race-detector pass (racepass.go, run by run.sh before
+// this process) found and covered.
+func mergeRacePass(run *ev.Run, cov map[string]interface{}) {
+	f := os.Getenv("C11_RACE_RESULT")
+	if f == "" {
+		cov["race_detector_pass"] = "not run"
+		return
+	}
+	b, err := os.ReadFile(f)
+	var r raceResult
+	if err != nil || json.Unmarshal(b, &r) != nil {
+		fmt.Fprintln(os.Stderr, "C11: the race-detector pass left no readable result:", f)
+		os.Exit(3)
+	}
+	for _, rep := range r.Reports {
+		run.Report(rep.Sig, rep.Detail, map[string]interface{}{"pass": "free-running race detector", "scenario": rep.Scenario})
+	}
+	cov["race_detector_pass"] = map[string]interface{}{"scenarios": r.Scenarios, "repetitions_each": r.Reps, "executions": r.Executions, "reports": len(r.Reports),
+		"note": "same thread bodies on real goroutines, uninstrumented, built with -race; supplementary (not an enumeration): guards the assumption that the accesses marked by the instrumenter are all the shared accesses"}
 }
